@@ -382,6 +382,8 @@ class Runner(object):
         for kind, where, e, tb in allx:
             if _is_mistral_exc(e):
                 continue
+            if isinstance(e, (core.SimKilled, core.SimAbort)):
+                continue    # simulator's own crash / teardown signal
             if id(e) in seen:
                 continue
             seen.add(id(e))
